@@ -238,7 +238,7 @@ RunResult run(J const &plan) {
       std::string st; if (e->run_script({"cv", "savetostring"}, &st) == COLVARS_OK) e->run_script({"cv", "loadfromstring", st});
       cvm::clear_error();
       instance_first_step = (long)cvm::step_absolute();   // relative steps (running-average labels and strides) count from the last state load
-      res.counters["probe.live_reloads"]++;
+      res.counters["probe.live_reloads"]++; res.counters["fault.live_reload"]++;
     } else if (k == "restart") {
       if (e->rec.empty()) continue;
       long at_step = (long)cvm::step_absolute();
@@ -256,7 +256,7 @@ RunResult run(J const &plan) {
       if (e->load_state(state_prefix) != COLVARS_OK) { res.fail("trajectory", "state_not_loaded", e->last_error()); break; }
       first_of_instance = true; have_prev = false; instance_first_step = at_step; last_step = -1;
       for (auto &kv : binfo) { kv.second.have_prev = false; }
-      res.counters["probe.restarts"]++;
+      res.counters["probe.restarts"]++; res.counters["fault.stop_and_restart"]++;
     }
   }
   e->end_run();
